@@ -125,11 +125,14 @@ KEEPALIVE = frame(4)
 class World(object):
     def __init__(self, local_as=65001, remote_as=65002, local_addr='10.0.0.1', remote_addr='10.0.0.2',
                  time_opts=None, bgp_opts=None, msg_opts=None, rest_opts=None,
-                 handler='rec', chooser=None, max_file_size=None, defer_close=False):
+                 handler='rec', chooser=None, max_file_size=None, defer_close=False, setsockopt_fails=False):
         configure(local_as, remote_as, local_addr, remote_addr, time_opts, bgp_opts,
                   dict(msg_opts or {}, **({} if handler == 'default' else {'write_disk': False})), rest_opts)
         reactor.reset()
         reactor.defer_io = bool(defer_close)
+        if setsockopt_fails:
+            # the kernel refuses TCP_MD5SIG (key longer than 80 octets, or no support)
+            reactor.setsockopt_error = OSError(22, 'Invalid argument')
         self.reactor = reactor
         self.chooser = chooser
         self.local_as, self.remote_as = local_as, remote_as
